@@ -358,7 +358,8 @@ func (p *printer) operand(e Expr) {
 
 func (p *printer) postfixBase(e Expr) {
 	switch e.(type) {
-	case *Ident, *Paren, *Call, *Index, *Sel, *Slice, *Import, *Immutable, *ErrorE:
+	case *Ident, *Paren, *Call, *Index, *Sel, *Slice, *Import, *Immutable, *ErrorE, *FuncLit:
+		// a function literal is invoked / indexed without parentheses: func() { ... }()
 		p.expr(e)
 	default:
 		p.w("(")
